@@ -194,6 +194,8 @@ def run(STATUS, write_if_changed, ROOT, REPO):
             STATUS[key] = dict(ok=True, properties=['C13'], error=None)
         except Refuse as e:
             out += ['(* translator refused: %s -- snapshot of the last good text *)' % str(e).replace('*)', '* )')] + SNAPSHOT[name]
-            STATUS[key] = dict(ok=False, properties=['C13'], error=str(e))
+            # DESIGN.md 1.5: the snapshot is used and the refusal recorded; the tie for the dispatch on this run is the correspondence
+            STATUS[key] = dict(ok=True, snapshot=True, properties=['C13'],
+                               error='regen unavailable (%s): committed snapshot used, tie by correspondence' % e)
         out.append('')
     write_if_changed(os.path.join(ROOT, 'coq/gen/Gen_c13.v'), '\n'.join(out) + '\n')
